@@ -66,7 +66,7 @@ def approx_args_from(args):
 class C18:
     prop = "C18"
     level = "exploration"
-    budgets = {"quick": 700, "thorough": 30000}
+    budgets = {"quick": 1000, "thorough": 30000}
     scenario_timeout = 2400
     warm_refinement = True
     warm_approx_refinement = True
